@@ -583,6 +583,12 @@ class Scheduler:
             except Exception:
                 logger.exception("Got an error with listener %s", listener)
 
+        # A job that succeeded in an earlier run is done, whatever happens to
+        # its dependencies now (checked first: a failed dependency must not
+        # mark it as failed, not even for a moment)
+        if job.donepath.exists():
+            job.state = JobState.DONE
+
         # Add dependencies, and add to blocking resources
         if job.dependencies:
             job.unsatisfied = len(job.dependencies)
@@ -592,12 +598,9 @@ class Scheduler:
                 dependency.loop = self.loop
                 dependency.origin.dependents.add(dependency)
                 dependency.check()
-        else:
+        elif not job.state.finished():
             job._readyEvent.set()
             job.state = JobState.READY
-
-        if job.donepath.exists():
-            job.state = JobState.DONE
 
         # Check if we have a running process (unless the job is already
         # finished: its state must not go back to RUNNING)
